@@ -346,6 +346,9 @@ def r7_unwrap_writeback_twins(ctx):
            f"{cols(stm, True)}", key="C11-R7|windows-columns")
 
 
+from ..through_time import make_rule as _mk_tt
+_through_time = _mk_tt("C11")
+
 RULES = [
     ("C11-R1", r1_lockstep_sources),
     ("C11-R2", r2_graph_lockstep),
@@ -354,4 +357,5 @@ RULES = [
     ("C11-R5", r5_group_join),
     ("C11-R6", r6_streamable),
     ("C11-R7", r7_unwrap_writeback_twins),
+    ("C11-T1", _through_time),
 ]
